@@ -4,12 +4,17 @@ Stage K: one generated AST (two top-level types) is rendered in several meaning-
 reorganised with hoisted (shared) type references, value-reference bounds and permuted assignments (several random
 choices), split into two modules with IMPORTS in both module orders — and compiled by the real compiler for all 8
 codecs.  For every value the encodings (or error classes) and the decoded values must be identical across arrangements;
-for the five modelled codecs arrangement 0 is also compared with the Lean model, so all arrangements are."""
+for the five modelled codecs arrangement 0 is also compared with the Lean model, so all arrangements are.
+
+Theorem (lean/Asn1Proofs/Properties/C19.lean): `run_permutation` — the dictionary rewrite `Preprocess.run` commutes with
+every reordering of the type assignments of a module (no COMPONENTS OF in that module), for ALL dictionaries;
+`module_order_matters` is the closed witness of the recorded module-order defect.  The model of the rewrite is tied
+to Compiler.pre_process by exact dictionary equality on every arrangement text (driver op prep), and the
+permutation instance is evaluated on the implementation as well."""
 from .. import core, impl
 from ..codecs import MODELLED, py_equal, impl_answer_enc
 from ..gen import Gen, Opts, module_text, ty_sx, val_sx, is_modelled, RefCtx
 
-LEVEL = 'exploration'
 CODECS = ['ber', 'der', 'per', 'uper', 'oer', 'jer', 'xer', 'gser']
 
 
@@ -65,6 +70,64 @@ def work(job):
     return part
 
 
+def work_prep(job):
+    """dictionary-level tie on the arrangement texts + the permutation theorem instance on the implementation"""
+    import copy
+    import random
+    import asn1tools
+    from asn1tools.codecs import compiler as _compiler
+    from .. import prep
+    part = core.Part()
+    model = core.Model()
+    lines, index = [], []
+    for seed, text in job:
+        rng = random.Random(seed)
+        try:
+            d = asn1tools.parse_string(text)
+            s0 = prep.s_spec(d)
+        except Exception as e:
+            part.count('prep.skip.' + type(e).__name__)
+            continue
+        for numeric in (False, True):
+            c = copy.deepcopy(d)
+            try:
+                _compiler.Compiler(c, numeric).pre_process()
+            except Exception as e:
+                part.count('prep.raises.' + type(e).__name__)
+                continue
+            lines.append('prep\t%s\t%s' % (prep.s_bool(numeric), s0))
+            index.append((text, 'Compiler(d, %s).pre_process()' % numeric, 'ok ' + prep.s_spec(c)))
+            # run_permutation: reorder the assignments of one module, rewrite, compare by name
+            mn = rng.choice(sorted(d))
+            if any(isinstance(m, dict) and set(m) == {'components-of'} for t in d[mn]['types'].values() for m in (t.get('members') or []) if m is not None):
+                continue
+            p = copy.deepcopy(d)
+            names = list(p[mn]['types'])
+            rng.shuffle(names)
+            p[mn]['types'] = {k: p[mn]['types'][k] for k in names}
+            try:
+                _compiler.Compiler(p, numeric).pre_process()
+            except Exception as e:
+                part.count('prep.permuted.raises.' + type(e).__name__)
+                continue
+            part.case(('perm', text, tuple(names), numeric))
+            if {m: dict(v['types']) for m, v in p.items()} != {m: dict(v['types']) for m, v in c.items()}:
+                part.violation('the rewritten dictionary depends on the order of the type assignments of module %s' % mn,
+                               {'module': text, 'order': names, 'numeric_enums': numeric})
+            else:
+                part.count('prep.permutation.same')
+    answers = model.batch(lines, timeout=3600) if lines else []
+    for (text, what, expected), got in zip(index, answers):
+        part.case(('prep', text, what))
+        if got == expected:
+            part.count('prep.dictionary.equal')
+        else:
+            k = next((i for i, (a, b) in enumerate(zip(expected, got)) if a != b), min(len(expected), len(got)))
+            part.disagreement('corr.prep', {'specification': text[:3000], 'history': what, 'python': expected[max(0, k - 200):k + 200], 'model': got[max(0, k - 200):k + 200]})
+    part.count('model_driver_requests', len(lines))
+    return part
+
+
 def run(ctx):
     rng = ctx.rng
     ctx.assumptions += ['arrangements are produced by the generator from one AST (harness/gen.py RefCtx): their meaning-preservation is by construction, and is cross-checked by the Lean model of the inline arrangement through C01']
@@ -91,6 +154,14 @@ def run(ctx):
     n = 28
     parts = core.parallel_map(work, [jobs[k::n] for k in range(n)])
     core.merge(ctx, parts)
+    import random
+    from .. import prep
+    texts = [(rng.getrandbits(32), text) for _, arr, _ in jobs for _, text, _ in arr]
+    for i in range(ctx.n(150, 2000)):
+        texts.append((rng.getrandbits(32), prep.PGen(random.Random(rng.getrandbits(32))).spec()))
+    parts = core.parallel_map(work_prep, [texts[k::n] for k in range(n)])
+    core.merge(ctx, parts)
+    ctx.model.calls += ctx.hist.pop('model_driver_requests', 0)
     # witness of a recorded finding: cross-module COMPONENTS OF under AUTOMATIC TAGS depends on module order
     a = 'A DEFINITIONS AUTOMATIC TAGS ::= BEGIN IMPORTS Base FROM B; T ::= SEQUENCE { COMPONENTS OF Base, z BOOLEAN } END\n'
     b = 'B DEFINITIONS AUTOMATIC TAGS ::= BEGIN Base ::= SEQUENCE { x INTEGER, y INTEGER } END\n'
